@@ -56,3 +56,14 @@ impl Observer {
 pub fn cas_bool_failed(a: &mut bool, current: bool, new: bool) -> (failed: bool)
     ensures failed == (*old(a) != current), *final(a) == (if *old(a) == current { new } else { *old(a) })
 { if *a == current { *a = new; false } else { true } }
+
+// Option<usize>::max (derived Ord: None < Some(_), Some by value)
+pub open spec fn opt_max_usize_spec(a: Option<usize>, b: Option<usize>) -> Option<usize> {
+    match (a, b) {
+        (Some(x), Some(y)) => if x >= y { Some(x) } else { Some(y) },
+        (Some(x), None) => Some(x),
+        (None, y) => y,
+    }
+}
+#[verifier::external_body]
+pub fn opt_max_usize(a: Option<usize>, b: Option<usize>) -> (r: Option<usize>) ensures r == opt_max_usize_spec(a, b) { unimplemented!() }
